@@ -216,11 +216,11 @@ func cmdCheck(args []string) int {
 				inconclusive = append(inconclusive, "run "+r.Name+": "+m)
 			}
 			for _, id := range r.Reach {
-				if ex.reach[id] == 0 {
+				if ex.reach[id] == 0 && !ex.stoppedEarly {
 					inconclusive = append(inconclusive, fmt.Sprintf("run %s: reach marker %q never witnessed (vacuous harness?)", r.Name, id))
 				}
 			}
-			if ex.pathsDone == 0 {
+			if ex.pathsDone == 0 && !ex.stoppedEarly {
 				inconclusive = append(inconclusive, fmt.Sprintf("run %s: no path completed", r.Name))
 			}
 			fmt.Fprintf(os.Stderr, "[%s/%s] paths=%d done=%d infeasible=%d decisions=%d steps=%d violations=%d inconclusive=%d %.1fs\n",
